@@ -3,12 +3,15 @@
    the correspondence check (scalar and vector overloads, widths 8-64, signed and unsigned; exhaustive for 8 bits).
    8/16-bit element types: exhaustive (finite domain).  32-bit carry/borrow/multiplication: all operands (lia/nia).
    bitfieldExtract unsigned: all widths, values and fields.  bitfieldReverse: every value of every width (OR-homomorphism).
-   NOT theorems for 32/64-bit element types: bitCount, findLSB, findMSB, bitfieldInsert (correspondence + oracle only).
+   bitCount, findLSB, findMSB, bitfieldInsert: EVERY value of the 8/16/32/64-bit element types, signed and unsigned (PopLadder field invariant for
+   the additive ladder; ~x & (x-1) counts trailing zeros; the smear ladder is an OR-homomorphism; bitfieldInsert bit by bit).
    Refuted statements = known findings (known_findings.txt): usubBorrow, signed bitfieldExtract.  (Fields of 32 bits and more of a
    64-bit element were a third one until the mask of bitfieldExtract was computed in the unsigned element type.) *)
 Require Import ZArith List Bool.
 Import ListNotations.
 From GLMM Require Import Half IntFn.
+From GLMV Require PopLadder.
+From W Require P_C05_count P_C05_msb P_C05_insert.
 From W Require A_C05_defs P_C05_w8 P_C05_w16_0 P_C05_w16_1 P_C05_w16_2 P_C05_w16_3 P_C05_w16_4 P_C05_w16_5 P_C05_w16_6 P_C05_w16_7 P_C05_general P_C05_reverse.
 Import A_C05_defs.
 Local Open Scope Z_scope.
@@ -48,7 +51,31 @@ Theorem C05_bitfieldReverse_all_32bit_values : forall sg x j, 0 <= j < 32 -> Z.t
 Proof. intros sg x j Hj. exact (P_C05_reverse.bitfieldReverse_all sg 32 x j P_C05_reverse.rev_bits_32 ltac:(auto with arith) Hj). Qed.
 Theorem C05_bitfieldReverse_all_64bit_values : forall sg x j, 0 <= j < 64 -> Z.testbit (umod 64 (bitfieldReverse sg 64 x)) j = Z.testbit (umod 64 x) (63 - j).
 Proof. intros sg x j Hj. exact (P_C05_reverse.bitfieldReverse_all sg 64 x j P_C05_reverse.rev_bits_64 ltac:(auto with arith) Hj). Qed.
+(* bitCount: the number of one bits of the argument's bit pattern, for every value of every element type (popcount = IntFn's bit-by-bit specification) *)
+Theorem C05_bitCount_all_values : forall sg w x, (w = 8 \/ w = 16 \/ w = 32 \/ w = 64) -> bitCount sg w x = popcount w x.
+Proof. exact P_C05_count.bitCount_all. Qed.
+(* findLSB: -1 for 0, otherwise the index r of a one bit with no one bit below it *)
+Theorem C05_findLSB_all_values : forall sg w x, (w = 8 \/ w = 16 \/ w = 32 \/ w = 64) -> in_T sg w x = true ->
+  (x = 0 -> findLSB sg w x = -1) /\
+  (x <> 0 -> let r := findLSB sg w x in 0 <= r < w /\ Z.testbit (umod w x) r = true /\ forall i, 0 <= i < r -> Z.testbit (umod w x) i = false).
+Proof. exact P_C05_count.findLSB_all. Qed.
+(* findMSB: with u = x for x >= 0 (and for unsigned types) and u = ~x for negative x: -1 when u = 0, otherwise the index log2 u of the highest one bit
+   of u (for negative x: the highest zero bit of x) *)
+Theorem C05_findMSB_all_values : forall sg w x, (w = 8 \/ w = 16 \/ w = 32 \/ w = 64) -> in_T sg w x = true ->
+  let u := if sg && (x <? 0) then Z.lnot x else x in 0 <= u < 2 ^ w /\ findMSB sg w x = if u =? 0 then -1 else Z.log2 u.
+Proof. exact P_C05_msb.findMSB_all. Qed.
+(* bitfieldInsert: bit i of the result is bit i - offset of Insert inside [offset, offset + bits) and bit i of Base outside *)
+Theorem C05_bitfieldInsert_all_values : forall sg w base ins off bits i, (w = 8 \/ w = 16 \/ w = 32 \/ w = 64) -> 0 <= off -> 0 <= bits -> off + bits <= w -> 0 <= i < w ->
+  Z.testbit (umod w (bitfieldInsert sg w base ins off bits)) i = if (off <=? i) && (i <? off + bits) then Z.testbit ins (i - off) else Z.testbit base i.
+Proof. exact P_C05_insert.bitfieldInsert_all. Qed.
+(* the statements are not vacuous: concrete instances through the same theorems *)
+Example C05_bitCount_instance : bitCount false 32 4042322160 = 16 /\ findLSB true 64 (-9223372036854775808) = 63 /\ findMSB true 32 (-1) = -1 /\ findMSB false 64 18446744073709551615 = 63.
+Proof. vm_compute. repeat split; reflexivity. Qed.
 Print Assumptions C05_16bit_all_values.
+Print Assumptions C05_bitCount_all_values.
+Print Assumptions C05_findLSB_all_values.
+Print Assumptions C05_findMSB_all_values.
+Print Assumptions C05_bitfieldInsert_all_values.
 Print Assumptions C05_imulExtended.
 Print Assumptions C05_bitfieldExtract_unsigned_all_widths.
 Print Assumptions C05_usubBorrow_refuted.
